@@ -57,6 +57,27 @@ def run(ctx) -> None:
     wr = [c for c in ast.walk(wc.node) if isinstance(c, ast.Call) and isinstance(c.func, ast.Attribute) and c.func.attr == "write"]
     ok = len(wr) == 1 and shapes.flows_from(wc, wr[0].args[0], lambda e: isinstance(e, ast.Call) and unparse(e.func) == "default_config")
     ctx.check("R1", ok, "write_content writes default_config(ctx) (optionally preceded by a newline)", "config.write_content writes something else than the generated default config", "", loc=wc.loc())
+    # appended to an existing file the section must start on a line of its own: a "\n" is put in front whenever the file
+    # exists - whatever its last byte is (its last line may lack the newline)
+    wcfg = cfgs.get(wc.fq)
+    wpc = PathCond(wcfg)
+    ex_atoms = [a_ for a_ in wpc.atoms if a_.replace("is_file", "exists").endswith("config_filepath.exists()")]
+    pre = [n for n in wcfg.nodes if n.kind == "stmt" and n.id in wcfg.reachable() and isinstance(n.ast, (ast.Assign, ast.AugAssign))
+           and any(isinstance(c, ast.Constant) and isinstance(c.value, str) and c.value.startswith("\n") for c in ast.walk(n.ast.value))
+           and any(isinstance(c, ast.BinOp) and isinstance(c.op, ast.Add) for c in ast.walk(n.ast.value))]
+    if len(ex_atoms) == 1 and len(pre) == 1:
+        r = wpc.reach(pre[0].id).drop_unused()
+        ctx.check("R1", r.equiv(BF.var(ex_atoms[0])), "write_content: a newline precedes the section exactly when the file already exists",
+                  "config.write_content: the separating newline in front of the new section depends on more than the file's existence",
+                  f"the newline is added when {r.to_dnf()}: for an existing file whose last line has no trailing newline the `[bumpver]` header is glued onto that line "
+                  f"and the file can no longer be parsed", loc=wc.loc(pre[0].ast), witness={"setup.cfg (no final newline)": "[metadata]\nname = x"})
+    else:
+        ctx.require(len(pre) >= 1 or len(ex_atoms) == 0, "write_content: newline prefix shape not enumerated")
+        if not pre:
+            ctx.bad("R1", "config.write_content: no newline is put in front of a section appended to an existing file", "the `[bumpver]` header is glued onto the file's last line when that lacks a newline",
+                    loc=wc.loc(), what="write_content: a newline precedes the section when the file exists")
+        else:
+            raise AnalysisError("C19/R1: write_content newline prefix shape not enumerated")
     init = prog.function("cli.init")
     isum = effects.effects_of(init.fq)
     others = [c for e, c in isum.items() if e == "FS_WRITE" and not c[-1].startswith("config.write_content")]
@@ -221,6 +242,11 @@ def run(ctx) -> None:
                   "first pass returns the first existing candidate holding a bumpver/pycalver section and current_version",
                   "config._pick_config_filepath: preference for already configured files changed", f"returns when {r.to_dnf()} with section test {sec.to_dnf()}", loc=pk.loc(first))
         opens = [s_ for s_ in effects.sites[pk.fq] if s_.detail.get("via") == "open"]
+        reads = [c for c in ast.walk(first) if isinstance(c, ast.Call) and isinstance(c.func, ast.Attribute) and c.func.attr in ("read", "read_bytes", "read_text", "readline", "readlines", "peek", "read1", "readinto")]
+        partial = [c for c in reads if c.func.attr not in ("read", "read_bytes", "read_text") or c.args or (c.func.attr == "read" and c.keywords)]
+        ctx.check("R4", bool(reads) and not partial, "first pass looks for the section in the whole file", "config._pick_config_filepath: only part of a candidate file is searched for an existing section",
+                  f"`{unparse(partial[0]) if partial else None}`: a [bumpver] section further down (where `init` itself appends it in a long setup.cfg) is not seen, "
+                  f"a second `init` then writes a second configuration into another file", loc=pk.loc(partial[0] if partial else first))
         ctx.check("R4", len(opens) == 1 and "b" in (opens[0].detail.get("mode") or ""), "first pass reads candidates in binary mode (no decoding errors)", "config._pick_config_filepath: candidate read mode changed", "", loc=pk.loc(first))
         rets2 = [n for n in ast.walk(second) if isinstance(n, ast.Return)]
         ok2 = len(rets2) == 1 and unparse(rets2[0].value) == unparse(second.target)
